@@ -6,19 +6,22 @@
    content; the binding requires the real dataset to hold exactly Fresh(that call) for every group, whatever
    came before.  TLC enumerates all histories over the classes of calls up to Depth and emits them. *)
 EXTENDS Integers, Sequences, FiniteSets, TLC, Json
-CONSTANTS Depth, HasPart
-Groups == {"mesh", "part"}
+CONSTANTS Depth, HasPart, HasSink
+Groups == {"mesh", "part", "sink"}
 Classes == {"full", "level", "value", "position", "position_cpus", "cpus", "g_mesh", "g_part", "g_mesh_part", "g_sink", "off_part", "off_mesh",
-            "vars_mesh", "vars_part", "sort_mesh", "sort_part"}
+            "vars_mesh", "vars_part", "sort_mesh", "sort_part", "sort_sink"}
 \* groups a call of class k (re)produces
+\* the sink table (a CSV next to the cpu files) is parsed anew by every call that does not exclude the group
 Produces(k) ==
-  LET all == IF HasPart THEN {"mesh", "part"} ELSE {"mesh"} IN
+  LET cpu == IF HasPart THEN {"mesh", "part"} ELSE {"mesh"}
+      sink == IF HasSink THEN {"sink"} ELSE {} IN
   CASE k \in {"g_mesh"}              -> {"mesh"}
-    [] k \in {"g_part"}              -> all \cap {"part"}
-    [] k = "g_sink"                  -> {}
-    [] k \in {"off_part"}            -> {"mesh"}
-    [] k \in {"off_mesh"}            -> all \cap {"part"}
-    [] OTHER                         -> all
+    [] k \in {"g_part"}              -> cpu \cap {"part"}
+    [] k = "g_mesh_part"             -> cpu
+    [] k = "g_sink"                  -> sink
+    [] k \in {"off_part"}            -> {"mesh"} \cup sink
+    [] k \in {"off_mesh"}            -> (cpu \cap {"part"}) \cup sink
+    [] OTHER                         -> cpu \cup sink
 VARIABLES src,     \* group -> position in hist of the call whose Fresh result the group must equal (0: absent)
           counted, \* counter -> position in hist of the call it must describe (0: initial value 0)
           hist
